@@ -25,6 +25,73 @@ fn worker_threads_alive() -> usize {
     n
 }
 
+/// Worker threads that are still there after the last handle was dropped: (thread id, state letter, cpu ticks).
+fn worker_thread_states() -> Vec<(String, char, u64)> {
+    let mut out = Vec::new();
+    if let Ok(rd) = std::fs::read_dir("/proc/self/task") {
+        for e in rd.flatten() {
+            let comm = std::fs::read_to_string(e.path().join("comm")).unwrap_or_default();
+            if !comm.trim().starts_with("fjall:worker") {
+                continue;
+            }
+            let stat = std::fs::read_to_string(e.path().join("stat")).unwrap_or_default();
+            if let Some(rest) = stat.rsplit_once(')').map(|x| x.1) {
+                let f: Vec<&str> = rest.split_whitespace().collect();
+                let st = f.first().and_then(|s| s.chars().next()).unwrap_or('?');
+                let ticks = f.get(11).and_then(|x| x.parse::<u64>().ok()).unwrap_or(0) + f.get(12).and_then(|x| x.parse::<u64>().ok()).unwrap_or(0);
+                out.push((e.file_name().to_string_lossy().to_string(), st, ticks));
+            }
+        }
+    }
+    out
+}
+
+/// After the last handle was dropped no worker thread may remain. The verdict is not a bare deadline: after
+/// `grace_ms` a remaining thread is a violation only if it then stays asleep (state S, no CPU time) for 10 more
+/// seconds - a leaked worker waits for a message that never comes; a thread that is still running or on its way
+/// out on a starved machine is reported as inconclusive.
+fn workers_gone(grace_ms: u128) -> Result<(), Deviation> {
+    let t0 = std::time::Instant::now();
+    while worker_threads_alive() > 0 && t0.elapsed().as_millis() < grace_ms {
+        std::thread::sleep(std::time::Duration::from_millis(2));
+    }
+    if worker_threads_alive() == 0 {
+        return Ok(());
+    }
+    let first = worker_thread_states();
+    let t1 = std::time::Instant::now();
+    let mut always_asleep = true;
+    while t1.elapsed().as_secs() < 10 {
+        std::thread::sleep(std::time::Duration::from_millis(100));
+        let now = worker_thread_states();
+        if now.is_empty() {
+            return Ok(());
+        }
+        for (tid, st, ticks) in &now {
+            let before = first.iter().find(|x| x.0 == *tid);
+            if *st != 'S' || before.is_none_or(|b| b.2 != *ticks) {
+                always_asleep = false;
+            }
+        }
+    }
+    let left = worker_thread_states();
+    if left.is_empty() {
+        return Ok(());
+    }
+    if always_asleep {
+        Err(Deviation::new(
+            "drop:worker-threads-remain",
+            format!(
+                "{} thread(s) named fjall:worker still exist {} s after the last handle was dropped and have been asleep without using CPU time for the last 10 s",
+                left.len(),
+                (grace_ms / 1000) + 10
+            ),
+        ))
+    } else {
+        Err(Deviation::new("inconclusive:slow", format!("{} worker thread(s) still winding down after {} s (running, not asleep)", left.len(), (grace_ms / 1000) + 10)))
+    }
+}
+
 fn classify_open_err(e: &fjall::Error) -> String {
     match e {
         fjall::Error::Locked => "locked".to_string(),
@@ -315,17 +382,7 @@ fn lifecycle_case(dir: &Path, rng: &mut Rng, stats: &mut Counts) -> R<String> {
     }
     held.clear();
     // after the last handle: worker threads gone (bounded grace), and opening succeeds
-    let t0 = std::time::Instant::now();
-    while worker_threads_alive() > 0 && t0.elapsed().as_millis() < 3_000 {
-        std::thread::sleep(std::time::Duration::from_millis(2));
-    }
-    let alive = worker_threads_alive();
-    if alive > 0 {
-        return Err(Deviation::new(
-            "drop:worker-threads-remain",
-            format!("{alive} thread(s) named fjall:worker still exist 3 s after the last handle was dropped"),
-        ));
-    }
+    workers_gone(3_000)?;
     let res = if rng.chance(1, 2) {
         match Database::builder(dir).worker_threads_unchecked(1).open() {
             Ok(_) => "ok".to_string(),
@@ -415,17 +472,10 @@ fn hot_drop_case(dir: &Path, rng: &mut Rng, stats: &mut Counts) -> R<String> {
             let _ = j.join();
         }
         stats.inc("hot_drop.rounds");
-        let t0 = std::time::Instant::now();
-        while worker_threads_alive() > 0 && t0.elapsed().as_millis() < 5_000 {
-            std::thread::sleep(std::time::Duration::from_millis(2));
-        }
-        let alive = worker_threads_alive();
-        if alive > 0 {
+        if let Err(mut d) = workers_gone(5_000) {
             crate::hooks::set_named_delay(None);
-            return Err(Deviation::new(
-                "drop:worker-threads-remain",
-                format!("round {round}: {alive} thread(s) named fjall:worker still exist 5 s after the last handle was dropped (delay {delay_us} us at `{point}`)"),
-            ));
+            d.detail = format!("round {round}: {} (delay {delay_us} us at `{point}`)", d.detail);
+            return Err(d);
         }
         desc.push_str(&format!(" [{point}:{delay_us}us]"));
     }
